@@ -18,6 +18,18 @@ CHECKS = {
  "C19": dict(engine="E2", technique="exhaustive sweep over (input length, buffer length) pairs of the real chunked/sized writer plus bounded caller loops",
              text="~1.2 x 10^6 (quick) / ~4 x 10^6 (thorough) pairs, every buffer length 6..=11000 and around chunk multiples, are each executed on a fresh real writer: progress >= 1, progress >= progress with the advertised maximum, monotone in the input length; whole-body caller loops with fixed buffers must terminate within L writes and decode to the body.",
              note="Input lengths per row are the enumerated set (1..=64/320, digit and chunk boundaries, the band around the buffer size), not every value up to 30000.", ref="4/C19"),
+ "C05": dict(engine="E2", technique="exhaustive sweep: every prefix of every head of a small-scope grammar through three entry points vs an independent head parser",
+             text="Every head of the grammar (2 versions x 12 statuses x 4 reason shapes x all ordered field lists up to length 2/3 over a 9-entry pool, plus the 0/1/127/128/129/130/200-field limit cases) is offered at EVERY prefix length and with trailing bytes to Flow::try_response (GET and HEAD flows), Call::try_response and parser::try_parse_response::<128>; strict prefixes must yield need-more-data with an unchanged state, complete heads the reference parse and the exact length. The deliberate truncated-redirect fallback is reported as known finding KF1 under a structural key; any other acceptance of a prefix is a violation.",
+             note="Field names/values are drawn from the pool; limit-case heads (>400 bytes) are cut at every prefix of the first and last 80 bytes and around every line end only.", ref="4/C05"),
+ "C06": dict(engine="E2", technique="exhaustive sweep of the full 777 600-cell body-framing decision table on the real code vs an RFC 9112 reference function",
+             text="All cells of method x status 100..=999 x version x Content-Length x Transfer-Encoding are executed through Flow::try_response + proceed + body_mode and through Call::try_response + into_body, compared with a reference decision function written from the property statement, and each decided framing is confirmed by reading a probe body with trailing bytes.",
+             note="Header values are the enumerated alphabets; status 100 is treated as interim (skipped or rejected, never a body state).", ref="4/C06"),
+ "C15": dict(engine="E2", technique="exhaustive sweep of the 7200-cell redirect method table through the real flow",
+             text="Every method x every status 300..=399 x both policies x four response-body kinds is driven through the real flow from Prepare to the redirect state; state entered, reported status, as_new_flow result, Flow::<Prepare>::method() and the request line actually written are compared with the documented table.",
+             note="One Location value (/next); URI resolution belongs to C14.", ref="4/C15"),
+ "C20": dict(engine="E2", technique="exhaustive sweep: every prefix of every generated request/response head through four monomorphic instances of each public parser vs an independent parser",
+             text="Response and request heads with f fields for every f in 0..=N+2 for each limit N in {0,1,4,128} are offered at every prefix length and with trailing bytes to try_parse_response::<N>, try_parse_partial_response::<N> and try_parse_request::<N>; complete/incomplete/too-many verdicts, message content, reported length and the partial parser's 'only completely present fields, in order' rule are checked in every cell.",
+             note="Field lists beyond length 2/3 are rotations of the pool rather than all ordered lists.", ref="4/C20"),
 }
 ALL = ["C%02d" % i for i in range(1, 21)]
 NA_REASON = "check not built yet (work in progress; not a claim that model checking cannot apply)"
